@@ -1390,6 +1390,11 @@ class H2Connection:
         if acknowledged_size < 0:
             raise ValueError("Cannot acknowledge negative data")
 
+        if self.state_machine.state == ConnectionState.CLOSED:
+            # Nothing but GOAWAY may be sent on a closed connection, and
+            # nobody is interested in a bigger window any more.
+            return
+
         frames = []
 
         # Look the stream up first: an acknowledgement for a stream that never
